@@ -1175,29 +1175,24 @@ fn cli_binding_project(rep: &Report, prop: &str, pname: &str, deep: bool) {
             let (t, h) = &states[*si];
             if let Op::Run { mode, sel, tn } = op {
                 let lib = b.run(&p, t, mode, &p.sels[*sel], *tn);
+                // the sub-commands are also driven with the top-level -N flag in front of them: verify stays verify and
+                // clean stays clean (or the command line is rejected: exit 2, nothing touched)
+                let variants: &[bool] = if matches!(mode, Mode::Verify | Mode::Clean) { &[false, true] } else { &[false] };
+                for &needed_prefix in variants {
                 b.materialize(t);
                 let before = snapshot(&b.base());
-                let mut args: Vec<String> = match mode {
-                    Mode::Build => vec![],
-                    Mode::InMemoryBuild => vec!["-N".into()],
-                    Mode::Verify => vec!["verify".into()],
-                    Mode::Clean => vec!["clean".into()],
-                };
-                args.push("-q".into());
-                if !*tn && *mode != Mode::Clean {
-                    args.push("-n".into());
-                }
-                if p.sels[*sel].recursive {
-                    args.push("-r".into());
-                }
-                args.extend(p.sels[*sel].inputs.iter().cloned());
+                let args = cli_args(&p, mode, *sel, *tn, needed_prefix);
                 let a: Vec<&str> = args.iter().map(|s| s.as_str()).collect();
                 let (code, to) = run_cli(&b.base(), &a, &[], 30.0);
                 let after = snapshot(&b.base());
                 rep.tv(1);
                 rep.tr(1);
+                if needed_prefix {
+                    rep.add("subcommand_runs_with_needed_flag", 1);
+                }
                 let rew = |b4: &Snapshot, af: &Snapshot| changed_paths(b4, af).into_iter().filter(|(p_, _)| af.get(p_).map(|m| m.node != Node::Dir).unwrap_or(true)).collect::<Vec<_>>();
-                let same = !to && (code == 0) == lib.ok && (code == 0 || code == 1) && state_of(&after) == state_of(&lib.after) && rew(&before, &after) == rew(&lib.before, &lib.after);
+                let rejected = needed_prefix && !to && code == 2 && rew(&before, &after).is_empty();
+                let same = rejected || (!to && (code == 0) == lib.ok && (code == 0 || code == 1) && state_of(&after) == state_of(&lib.after) && rew(&before, &after) == rew(&lib.before, &lib.after));
                 if !same {
                     rep.violate(
                         "binary-differs-from-library",
@@ -1210,12 +1205,32 @@ fn cli_binding_project(rep: &Report, prop: &str, pname: &str, deep: bool) {
                             rew(&lib.before, &lib.after),
                             if state_of(&after) != state_of(&lib.after) { "; resulting trees differ" } else { "" }
                         ),
-                        json!({"engine": "H-cli", "prop": prop, "project": pname, "history": h.iter().map(|o| o.to_json()).collect::<Vec<_>>(), "op": op.to_json()}),
+                        json!({"engine": "H-cli", "prop": prop, "project": pname, "history": h.iter().map(|o| o.to_json()).collect::<Vec<_>>(), "op": op.to_json(), "needed_prefix": needed_prefix}),
                     );
+                }
                 }
             }
         }
     });
+}
+
+fn cli_args(p: &Project, mode: &Mode, sel: usize, tn: bool, needed_prefix: bool) -> Vec<String> {
+    let mut args: Vec<String> = if needed_prefix { vec!["-N".into()] } else { vec![] };
+    match mode {
+        Mode::Build => {}
+        Mode::InMemoryBuild => args.push("-N".into()),
+        Mode::Verify => args.push("verify".into()),
+        Mode::Clean => args.push("clean".into()),
+    }
+    args.push("-q".into());
+    if !tn && *mode != Mode::Clean {
+        args.push("-n".into());
+    }
+    if p.sels[sel].recursive {
+        args.push("-r".into());
+    }
+    args.extend(p.sels[sel].inputs.iter().cloned());
+    args
 }
 
 pub fn replay_cli(v: &Value) -> bool {
@@ -1238,25 +1253,16 @@ pub fn replay_cli(v: &Value) -> bool {
         let lib = b.run(&p, &t, mode, &p.sels[*sel], *tn);
         b.materialize(&t);
         let before = snapshot(&b.base());
-        let mut args: Vec<String> = match mode {
-            Mode::Build => vec![],
-            Mode::InMemoryBuild => vec!["-N".into()],
-            Mode::Verify => vec!["verify".into()],
-            Mode::Clean => vec!["clean".into()],
-        };
-        args.push("-q".into());
-        if !*tn && *mode != Mode::Clean {
-            args.push("-n".into());
-        }
-        if p.sels[*sel].recursive {
-            args.push("-r".into());
-        }
-        args.extend(p.sels[*sel].inputs.iter().cloned());
+        let needed_prefix = v["needed_prefix"].as_bool().unwrap_or(false);
+        let args = cli_args(&p, mode, *sel, *tn, needed_prefix);
         let a: Vec<&str> = args.iter().map(|s| s.as_str()).collect();
         let (code, to) = run_cli(&b.base(), &a, &[], 30.0);
         let after = snapshot(&b.base());
         println!("replay: txtpp {:?} exit {code}; library ok={}; binary rewrote {:?}, library rewrote {:?}", args, lib.ok, changed_paths(&before, &after), changed_paths(&lib.before, &lib.after));
         let rew = |b4: &Snapshot, af: &Snapshot| changed_paths(b4, af).into_iter().filter(|(p_, _)| af.get(p_).map(|m| m.node != Node::Dir).unwrap_or(true)).collect::<Vec<_>>();
+        if needed_prefix && !to && code == 2 && rew(&before, &after).is_empty() {
+            return false;
+        }
         return to || (code == 0) != lib.ok || state_of(&after) != state_of(&lib.after) || rew(&before, &after) != rew(&lib.before, &lib.after);
     }
     false
